@@ -62,6 +62,18 @@ def alphabet():
         return pm.add_covariate_effect(m, first_indiv_param(m, True), 'APGR' if 'APGR' in m.datainfo.names else 'WT',
                                        'exp')
 
+    def nth_param_with_eta(m, n):
+        from pharmpy.modeling import get_individual_parameters
+        etas = set(m.random_variables.etas.names)
+        ps = [p for p in get_individual_parameters(m)
+              if {str(x) for x in m.statements.before_odes.full_expression(p).free_symbols} & etas]
+        return ps[min(n, len(ps) - 1)]
+
+    def cov_names(m):
+        cont = next(c for c in ('WGT', 'WT', 'AGE') if c in m.datainfo.names)
+        cat = next(c for c in ('APGR', 'SEX', 'FA1') if c in m.datainfo.names)
+        return cont, cat
+
     def fix_first(m):
         return pm.fix_parameters(m, [m.parameters.names[0]])
 
@@ -85,6 +97,13 @@ def alphabet():
         'join_iiv': lambda m: pm.create_joint_distribution(m, individual_estimates=None),
         'split_iiv': pm.split_joint_distribution,
         'covariate': covariate, 'fix_first': fix_first, 'set_inits': inits,
+        # statements that print as several lines / nodes (cat2: a run of logical IFs) next to edited neighbours
+        'cov2_lin': lambda m: pm.add_covariate_effect(m, nth_param_with_eta(m, 1), cov_names(m)[0], 'lin'),
+        'cov1_cat2': lambda m: pm.add_covariate_effect(m, nth_param_with_eta(m, 0), cov_names(m)[1], 'cat2'),
+        'cov1_cat': lambda m: pm.add_covariate_effect(m, nth_param_with_eta(m, 0), cov_names(m)[1], 'cat'),
+        'cov2_pw': lambda m: pm.add_covariate_effect(m, nth_param_with_eta(m, 1), cov_names(m)[0], 'piece_lin'),
+        'rm_cov2': lambda m: pm.remove_covariate_effect(m, nth_param_with_eta(m, 1), cov_names(m)[0]),
+        'rm_cov1': lambda m: pm.remove_covariate_effect(m, nth_param_with_eta(m, 0), cov_names(m)[1]),
         'mu_ref': pm.mu_reference_model,
         'tad': pm.add_time_after_dose,
     }
@@ -242,7 +261,11 @@ def main():
         cases = first + rest
     sib = [(s0, (o,), sb) for s0 in starts[:2] for sb in ('zo_abs', 'seq_abs', 'add_periph')
            for o in ['tad'] + QUICK_OPS[:12]]
-    cases = cases[:40] + sib + cases[40:]
+    # targeted histories: a multi-line statement is re-emitted while its neighbours stay / go (three steps in one session)
+    cov3 = [(s0, h) for s0 in START[:2] for h in (
+        ('cov2_lin', 'cov1_cat2', 'rm_cov2'), ('cov2_lin', 'cov1_cat', 'rm_cov2'), ('cov1_cat2', 'cov2_pw', 'rm_cov1'),
+        ('cov2_pw', 'cov1_cat2', 'set_inits'), ('cov1_cat2', 'cov2_lin', 'rm_cov1'), ('cov2_lin', 'cov1_cat2', 'fix_first'))]
+    cases = cases[:40] + sib + cov3 + cases[40:]
     nproc = int(os.environ.get('VERIF_JOBS', 0)) or min(16, os.cpu_count() or 4)
     t0 = time.time()
     stats = dict(unsat=0, sat_confirmed=0, sat_unreplayable=0, unknown=0, unsupported=0)
